@@ -21,23 +21,46 @@ fn setup<'a>(state: &'a DepthCell, remote: PortIdentity) -> (RPort<'a>, PortCfg,
     (port, cfg, code)
 }
 
+// @harness c07_gate_short
+// @props C07:quick C03:thorough C17:thorough
+// @tier quick
+// @variant dl128_lists2
+// @timeout 1800
+// @mem 14
+// @functions Port::parse_and_filter, is_compatible, Message::deserialize, Header::deserialize_header
+// @bounds frames of 0..=44 symbolic octets (every message type nibble, flags, lengths; complete Sync / Delay_Req / Follow_Up / Pdelay_Req frames, every other type only as a truncated frame), symbolic buffer length; arbitrary instance domain / sdoId; concrete listening port (parse_and_filter does not read the port state; 64-octet frames on a port in an arbitrary state: c07_gate, thorough tier)
+// @assume frames longer than 64 octets differ only by more iterations of the TLV loop (decided separately under C04 up to 76 octets)
+#[kani::proof]
+#[kani::unwind(14)]
+fn c07_gate_short() { gate_case(0) }
+
 // @harness c07_gate
-// @props C07 C03:thorough C17:thorough
+// @props C07:thorough C03:thorough C17:thorough
 // @tier quick
 // @variant lists2
 // @timeout 1800
 // @mem 14
 // @functions Port::parse_and_filter, is_compatible, Message::deserialize, Header::deserialize_header
-// @bounds 64 symbolic octets (every message type nibble, flags, lengths), symbolic buffer length 0..=64; arbitrary instance domain / sdoId; arbitrary port state
+// @bounds every message type nibble on a port in an arbitrary state (all five, arbitrary slots): 64 symbolic octets, symbolic buffer length 0..=64; arbitrary instance domain / sdoId
 // @assume frames longer than 64 octets differ only by more iterations of the TLV loop (decided separately under C04 up to 76 octets)
 #[kani::proof]
 #[kani::unwind(14)]
-fn c07_gate() {
+fn c07_gate() { gate_case(2) }
+
+/// `part`: 0 = frames of at most 44 octets on a concrete listening port (the gate never looks at the port state),
+/// 2 = frames of up to 64 octets on a port in an arbitrary state
+fn gate_case(part: u8) {
     let state = any_state(0);
-    let (mut port, _cfg, _code) = setup(&state, any_port_identity());
+    let (mut port, _cfg, _code) = if part == 2 {
+        setup(&state, any_port_identity())
+    } else {
+        let cfg = PortCfg::plain();
+        (mk_running(&state, cfg, RecClock::quiet(), RecFilterCfg { ret_delay: None, ret_update: false }, PortState::Listening), cfg, ST_LISTENING)
+    };
     let buf: [u8; 64] = kani::any();
+
     let len: usize = kani::any();
-    kani::assume(len <= 64);
+    kani::assume(len <= if part == 2 { 64 } else { 44 });
     let before = snapshot(&port);
     let b = &buf[..len];
     let rf = ref_frame(b, 3);
@@ -70,12 +93,13 @@ fn c07_gate() {
     core::mem::forget(port);
 }
 
+
 fn announce_message<'a>(a: &AnnounceMessage, suffix: TlvSet<'a>) -> Message<'a> {
     Message { header: a.header, body: MessageBody::Announce(*a), suffix }
 }
 
 // @harness c07_announce_rejected
-// @props C07 C03:thorough C17:thorough
+// @props C07:quick C03:quick C17:quick
 // @tier quick
 // @variant lists2
 // @stubbing yes
@@ -114,7 +138,7 @@ fn c07_announce_rejected() {
 }
 
 // @harness c07_slave_messages_in_other_states
-// @props C07 C08:thorough C03:thorough C17:thorough
+// @props C07:quick C08:thorough C03:thorough C17:thorough
 // @tier quick
 // @variant lists2
 // @timeout 1500
@@ -175,11 +199,13 @@ fn drain_announce(mut it: PortActionIterator<'_>, sender: PortIdentity) -> AnnDr
     r
 }
 
-fn announce_step(with_suffix: bool) {
+/// `part`: 0 = the port is a slave, 1 = it is in one of the other four states (the two parts cover every state)
+fn announce_step(with_suffix: bool, part: u8) {
     let state = any_state(0);
     state.poke().path_trace_ds.enable = false;
     let remote = any_port_identity();
     let (mut port, cfg, code) = setup(&state, remote);
+    kani::assume((code == ST_SLAVE) == (part == 0));
     if code == ST_SLAVE {
         // Inv: a slave's parent data set names its remote master
         state.poke().parent_ds.parent_port_identity = remote;
@@ -262,7 +288,7 @@ fn announce_step(with_suffix: bool) {
         } else {
             assert!(state_code(&port.port_state) == code);
         }
-        kani::cover!(want == 1, "the propagating TLV is forwarded");
+        kani::cover!(!with_suffix || want == 1, "the propagating TLV is forwarded");
         kani::cover!(sibling, "multiport disable");
     } else {
         assert!(r.n == 0, "C07: rejected Announce produced actions");
@@ -273,21 +299,21 @@ fn announce_step(with_suffix: bool) {
     // C17: one API call changes the shared data sets in at most one exclusive section (an observer taking the lock
     // between two sections would see a half-applied update)
     assert!(state.mut_sections.get() <= 1, "C17: data set update of one Announce split over several lock sections");
-    kani::cover!(from_parent && accepted, "Announce from the parent");
+    kani::cover!(part != 0 || (from_parent && accepted), "Announce from the parent (slave part)");
     kani::cover!(!from_parent && accepted, "Announce from another acceptable master");
     kani::cover!(!accepted, "rejected Announce");
     core::mem::forget(port);
 }
 
-// @harness c11_handle_announce
-// @props C11 C15 C12 C07 C03 C17
+// @harness c11_handle_announce_slave_no_tlv
+// @props C11:quick C15:thorough C12:thorough C07:thorough C03:thorough C17:quick
 // @tier quick
 // @variant dl128_lists2
 // @stubbing yes
 // @timeout 2400
-// @mem 22
+// @mem 12
 // @functions Port::handle_announce, Bmca::register_announce_message, ForeignMasterList::register_announce_message, ForeignMasterList::is_announce_message_qualified, AnnounceMessage::time_properties, PortActionIterator::with_forward_tlvs
-// @bounds one step from an arbitrary port state with an empty foreign-master list; fully symbolic Announce (every stepsRemoved; the data-set update is asserted for 0..=254, for >= 255 only that nothing panics and nothing is recorded) from the parent or anyone else, with a concrete suffix of one propagating and one non-propagating TLV; path trace off (the path-trace receive path is c15_path_trace_*)
+// @bounds case split over the port state (parts _slave and _other cover all five): the port is a slave (arbitrary remote, slots). One step with an empty foreign-master list; fully symbolic Announce (every stepsRemoved; the data-set update is asserted for 0..=254, for >= 255 only that nothing panics and nothing is recorded) from the parent or anyone else, without a TLV suffix; path trace off (the path-trace receive path is c15_path_trace_*)
 // @assume Interval::as_core_duration / Duration::mul_f64 / core::mem::swap stubs as in c12_announce_receipt_timer
 #[kani::proof]
 #[kani::unwind(14)]
@@ -295,23 +321,63 @@ fn announce_step(with_suffix: bool) {
 #[kani::stub(core::time::Duration::mul_f64, crate::verif_root::stubs::mul_f64_contract)]
 #[kani::stub(core::mem::swap, super::common::swap_stub)]
 #[kani::stub(crate::bmc::foreign_master::ForeignMasterList::register_announce_message, crate::bmc::foreign_master::verif_fm::register_rec)]
-fn c11_handle_announce() { announce_step(true) }
+fn c11_handle_announce_slave_no_tlv() { announce_step(false, 0) }
+
+// @harness c11_handle_announce_slave
+// @props C11:thorough C15:thorough C12:thorough C07:thorough C03:thorough C17:thorough
+// @tier quick
+// @variant dl128_lists2
+// @stubbing yes
+// @timeout 2400
+// @mem 22
+// @functions Port::handle_announce, Bmca::register_announce_message, ForeignMasterList::register_announce_message, ForeignMasterList::is_announce_message_qualified, AnnounceMessage::time_properties, PortActionIterator::with_forward_tlvs
+// @bounds case split over the port state (parts _slave and _other cover all five): the port is a slave (arbitrary remote, slots). One step with an empty foreign-master list; fully symbolic Announce (every stepsRemoved; the data-set update is asserted for 0..=254, for >= 255 only that nothing panics and nothing is recorded) from the parent or anyone else, with a concrete suffix of one propagating and one non-propagating TLV; path trace off (the path-trace receive path is c15_path_trace_*)
+// @assume Interval::as_core_duration / Duration::mul_f64 / core::mem::swap stubs as in c12_announce_receipt_timer
+#[kani::proof]
+#[kani::unwind(14)]
+#[kani::stub(crate::time::Interval::as_core_duration, crate::verif_root::stubs::as_core_duration_int)]
+#[kani::stub(core::time::Duration::mul_f64, crate::verif_root::stubs::mul_f64_contract)]
+#[kani::stub(core::mem::swap, super::common::swap_stub)]
+#[kani::stub(crate::bmc::foreign_master::ForeignMasterList::register_announce_message, crate::bmc::foreign_master::verif_fm::register_rec)]
+fn c11_handle_announce_slave() { announce_step(true, 0) }
+
+// @harness c11_handle_announce_other
+// @props C11:thorough C15:thorough C12:thorough C07:thorough C03:thorough C17:thorough
+// @tier quick
+// @variant dl128_lists2
+// @stubbing yes
+// @timeout 2400
+// @mem 22
+// @functions Port::handle_announce, Bmca::register_announce_message, ForeignMasterList::register_announce_message, ForeignMasterList::is_announce_message_qualified, AnnounceMessage::time_properties, PortActionIterator::with_forward_tlvs
+// @bounds case split over the port state (parts _slave and _other cover all five): the port is listening, master, passive or faulty. One step with an empty foreign-master list; fully symbolic Announce (every stepsRemoved; the data-set update is asserted for 0..=254, for >= 255 only that nothing panics and nothing is recorded) from the parent or anyone else, with a concrete suffix of one propagating and one non-propagating TLV; path trace off (the path-trace receive path is c15_path_trace_*)
+// @assume Interval::as_core_duration / Duration::mul_f64 / core::mem::swap stubs as in c12_announce_receipt_timer
+#[kani::proof]
+#[kani::unwind(14)]
+#[kani::stub(crate::time::Interval::as_core_duration, crate::verif_root::stubs::as_core_duration_int)]
+#[kani::stub(core::time::Duration::mul_f64, crate::verif_root::stubs::mul_f64_contract)]
+#[kani::stub(core::mem::swap, super::common::swap_stub)]
+#[kani::stub(crate::bmc::foreign_master::ForeignMasterList::register_announce_message, crate::bmc::foreign_master::verif_fm::register_rec)]
+fn c11_handle_announce_other() { announce_step(true, 1) }
+
 
 // @harness c15_receive_forwarding
-// @props C15 C03:thorough
+// @props C15:thorough C03:thorough
 // @tier quick
 // @variant lists2
 // @timeout 1800
 // @mem 16
 // @functions PortActionIterator::next, PortActionIterator::with_forward_tlvs, TlvSetIterator::next, Tlv::deserialize, TlvType::from_primitive, TlvType::announce_propagate, TlvSet::deserialize
-// @bounds the action iterator handle_announce returns for an accepted Announce, over any well-formed TLV suffix of <= 12 octets (<= 3 TLVs, all 2^16 types, any even lengths) and any sender identity
+// @bounds case split (the parts of c15_receive_forwarding cover the whole input space between them): suffix length 0..=8 octets. the action iterator handle_announce returns for an accepted Announce, over any well-formed TLV suffix of <= 12 octets (<= 3 TLVs, all 2^16 types, any even lengths) and any sender identity
 // @note handle_announce attaching exactly message.suffix.tlv() with the sender's identity (and only for accepted Announces) is decided by c11_handle_announce on a concrete suffix
 #[kani::proof]
 #[kani::unwind(14)]
-fn c15_receive_forwarding() {
+fn c15_receive_forwarding() { receive_forwarding_case(2) }
+
+fn receive_forwarding_case(part: u8) {
     let sbuf: [u8; 12] = kani::any();
     let slen: usize = kani::any();
     kani::assume(slen <= 12);
+    if part != 2 { kani::assume((slen <= 8) == (part == 0)); }
     let sender = any_port_identity();
     let suffix = match TlvSet::deserialize(&sbuf[..slen]) {
         Ok(s) => s,
@@ -338,7 +404,9 @@ fn c15_receive_forwarding() {
     assert!(r.fwd == want && r.fwd_sender_ok, "C15: set of TLVs offered for forwarding != propagating TLVs of the Announce");
     kani::cover!(want == 2, "two TLVs forwarded");
     kani::cover!(want == 0 && ntlv == 2, "no TLV forwarded of two");
+    kani::cover!(part == 0 || ntlv == 3, "three TLVs");
 }
+
 
 fn before_default(s: &Snapshot) -> crate::datastructures::datasets::InternalDefaultDS {
     snapshot_default(s)
@@ -414,7 +482,7 @@ fn path_trace_case(entries: usize, own_at: Option<usize>) {
 }
 
 // @harness c15_path_trace_stored
-// @props C15
+// @props C15:thorough
 // @tier thorough
 // @role best_effort
 // @variant dl128_lists2
@@ -433,7 +501,7 @@ fn path_trace_case(entries: usize, own_at: Option<usize>) {
 fn c15_path_trace_stored() { path_trace_case(3, None) }
 
 // @harness c15_path_trace_loop
-// @props C15 C03
+// @props C15:thorough C03:thorough
 // @tier thorough
 // @variant dl128_lists2
 // @stubbing yes
@@ -451,7 +519,7 @@ fn c15_path_trace_stored() { path_trace_case(3, None) }
 fn c15_path_trace_loop() { path_trace_case(3, Some(1)) }
 
 // @harness c15_path_trace_over_capacity
-// @props C15
+// @props C15:thorough
 // @tier thorough
 // @role best_effort
 // @variant dl128_lists2
@@ -470,7 +538,7 @@ fn c15_path_trace_loop() { path_trace_case(3, Some(1)) }
 fn c15_path_trace_over_capacity() { path_trace_case(17, None) }
 
 // @harness c11_parent_announce_steps_65535
-// @props C11 C03
+// @props C11:quick C03:quick
 // @tier quick
 // @variant lists2
 // @stubbing yes
